@@ -43,8 +43,8 @@ ASSUMPTIONS = [
     "documents with type-system definitions are parsed with allow_type_system=True",
 ]
 BOUNDS = {
-    "quick": {"valid_base_nodes": 3, "valid_dev_nodes": 1, "labelled_seed_nodes": 1, "def_perm_max": 4, "list_perm_max": 3},
-    "thorough": {"valid_base_nodes": 4, "valid_dev_nodes": 2, "labelled_seed_nodes": 2, "def_perm_max": 4, "list_perm_max": 4},
+    "quick": {"valid_base_nodes": 3, "valid_dev_nodes": 1, "hand_seeds_deviated": [2, 3, 4, 5], "labelled_seed_nodes": 1, "def_perm_max": 4, "list_perm_max": 3},
+    "thorough": {"valid_base_nodes": 4, "valid_dev_nodes": 2, "hand_seeds_deviated": [0, 1, 2, 3, 4, 5], "labelled_seed_nodes": 2, "def_perm_max": 4, "list_perm_max": 4},
 }
 TIME_CAP = {"quick": 150, "thorough": 1500}
 
@@ -101,7 +101,7 @@ def cases(tier):
             cnt = len(gen(name).sets(S.SCHEMAS[name][root], n, 3))
             for idx in range(cnt):
                 yield {"k": "valid-dev", "t": tier, "schema": name, "root": root, "n": n, "idx": idx}
-    for i in range(len(hs)):
+    for i in b["hand_seeds_deviated"]:
         name, c = hs[i]
         nd = sum(1 for _ in O.deviations(S.SCHEMAS[name], c["doc"]))
         for j in range(0, nd, 6):
